@@ -202,6 +202,21 @@ def check_class(prog, cd, rep, cname, amap, items, c):
                 rep.ok("container-kind", f"{fq}: `{t.attr}` installed as a list")
     if not installed:
         rep.ok("container-kind", f"{fq}: the pair is filled through the add method (list appends)")
+    # 5b 'surviving items keep the channel they were given' across encode/decode: the decoded block's channel list is the stored one
+    # (installed as it is, or handed item by item to the add method as the explicit channel) - not a fresh automatic numbering
+    try:
+        un = cd.unify(u)
+        obj = un.result_obj
+    except AnalysisError:
+        obj = None
+    if obj is not None and amap in obj["attrs"] and obj["attrs"][amap] is not None:
+        from ..sym import canon as _canon
+        gotm = _canon(obj["attrs"][amap], un.ctx)
+        if gotm == f"self.{amap}":
+            rep.ok("decoder-keeps-channels", f"{fq}: the decoded `{amap}` is the stored channel list", nontrivial=True)
+        else:
+            rep.fail("decoder-keeps-channels", u.reader.module.path.name, fq, obj["node"], f"the decoded block's `{amap}` is `{gotm[:80]}`, not the stored channel list: items come back on other channels than they were stored with",
+                     construct=f"{fq} decoded {amap}")
     # 7 lookup-types (removal by label)
     for f2 in c.all_funcs():
         if f2.kind != "method" or "label" not in f2.params:
